@@ -497,7 +497,7 @@ pub fn run(session: &Session) -> i32 {
         repl_cases.push(json!({"kind": "repl", "values": chunk}));
     }
     let mut generated = vec![];
-    for data in session.sample_tapes(session.tier.of(2000, 40000), 120, 9) {
+    for data in session.sample_tapes(session.tier.of(4000, 40000), 120, 9) {
         let mut tape = Tape::new(data);
         let depth = if tape.chance(1, 6) { 5 + tape.below(5) } else { tape.below(5) };
         generated.push(gen_value(&mut tape, depth));
@@ -512,7 +512,7 @@ pub fn run(session: &Session) -> i32 {
         session.run_enum(&C20, cases);
     }
     if !session.stopped() {
-        session.run_tapes(&C20, session.tier.of(60_000, 3_000_000), 120, 0);
+        session.run_tapes(&C20, session.tier.of(300_000, 3_000_000), 120, 0);
     }
     session.finish(
         "nested values (generated to depth 9, enumerated towers of arrays / tuples / both / with siblings to depth 16 over every kind of leaf) of bool, int (45-value boundary grid incl. MIN/MAX, small, random), finite floats (grid incl. signed zero, subnormals, 1e308, exponent forms, random bit patterns), strings over 26 characters (quote, backslash, NUL and other C0/C1 controls next to digits, DEL, combining mark, BOM, non-BMP, escape-letter look-alikes), (), arrays and tuples, built through the public constructors, rendered with {:?} and fed back to Variable::from_str and (unless MIN_INT occurs) to Code::parse+exec: content, `==` and as_type() must be preserved; integer literal texts in radix 2/8/10/16 with random underscores and magnitudes up to 2^65 must denote their mathematical value or be rejected with the too-big error, as value literal (also negated) and as program; every boundary scalar and every 1-2 character string over the alphabet is also checked alone, in an array and in a nested tuple (exhaustive). Non-trivial = nesting >= 1 or a boundary scalar / escaped character; distinct by rendered text.",
